@@ -338,7 +338,10 @@ def check(ctx):
     for key in ('DelaySSASimulator', 'DelayVolumeSSASimulator'):
         sl_ = simloop.SimLoop(ctx, key)
         pr_, n_ = simloop.event_race(sl_)
-        ctx.ob('R10.1-event-race', key, not pr_, sl_.where, RACE_WHAT % n_, '; '.join(pr_[:2]))
+        pr2_, n2_ = simloop.event_race_run(sl_)
+        if pr_ is None:     # a pass is not evaluable in isolation (it reads locals carried between passes): the run decides
+            pr_, n_ = [], 0
+        ctx.ob('R10.1-event-race', key, not pr_ and not pr2_, sl_.where, RACE_WHAT % (n_, n2_), '; '.join((pr2_ + pr_)[:2]))
     check_nodelay(ctx)
     check_delay_classes(ctx)
     check_samplers(ctx)
